@@ -66,6 +66,11 @@ def run(prop, tier, seed):
         cfg = dict(policy='none', cull=10, limit=2 ** 30, stats=False, shared=0, kind='index', timeout=0, busy_budget=2,
                    init_pairs=init if (a, b) != pairs[0] and (a, b) != pairs[1] else [[2, F1]])
         cj_dfs.append((cfg, {1: [a], 2: [b]}, 2, 60 if tier == 'quick' else 300, seed))
+    # a failing call first (KeyError inside its transaction), then compound operations of the same client
+    for b in (o('popitem', last=1), o('setdefault', k=7, v=5), o('pop', k=1, d=[])):
+        cfg = dict(policy='none', cull=10, limit=2 ** 30, stats=False, shared=0, kind='index', timeout=0, busy_budget=2,
+                   init_pairs=[[1, 1], [2, 2], [7, 3]])
+        cj_dfs.append((cfg, {1: [o('delitem', k=8), o('popitem', last=1)], 2: [b]}, 2, 60 if tier == 'quick' else 300, seed))
     for i in range(60 if tier == 'quick' else 1500):
         cfg = dict(policy='none', cull=10, limit=2 ** 30, stats=False, shared=rng.randrange(2), kind='index', timeout=0,
                    busy_budget=2, init_pairs=rng.choice([[], [[2, F1]], [[2, 3], [7, F1]]]))
